@@ -56,8 +56,18 @@ def patch_event(darsia, rng, n, k, relp, relq, h, omode, colour, tid):
             same = same and np.array_equal(P(i, j).img, img.img[r])
     if not same:
         e["ptl"][0][0] = -1
-    e["assembled"] = int(asm.img.shape == img.img.shape and np.array_equal(asm.img, img.img)
-                         and np.allclose(asm.origin, img.origin) and np.allclose(asm.dimensions, img.dimensions))
+    # re-assembly: same pixels and pixel type, placed exactly where the base image is (lattice position, not allclose: the
+    # "far" origins are 1e6 voxel sizes away)
+    e["assembled"] = int(asm.img.shape == img.img.shape and asm.img.dtype == img.img.dtype and np.array_equal(asm.img, img.img)
+                         and lat(asm.origin) == lat(img.origin) and np.allclose(asm.dimensions, img.dimensions, rtol=1e-12, atol=0))
+    # the second way of putting patches together: blending with partition-of-unity weights over the overlaps
+    try:
+        with contextlib.redirect_stdout(io.StringIO()):
+            bl = P.blend_and_assemble()
+        e["blend"] = int(bl.img.shape == img.img.shape and np.allclose(np.asarray(bl.img, dtype=float), np.asarray(img.img, dtype=float), rtol=1e-9, atol=1e-9))
+    except Exception as ex:  # noqa
+        e["blend"] = -1
+        e["blend_error"] = repr(ex)[:120]
     e["cv"] = np.asarray(P.global_corners_voxels).astype(int).tolist()
     e["cx"] = [[lat(P.global_corners_cartesian[i][j]) for j in range(k[1])] for i in range(k[0])]
     e["ctr_x"] = [[lat(P.global_centers_cartesian[i][j], 8)[0] for j in range(k[1])] for i in range(k[0])]
